@@ -40,7 +40,7 @@ ASSUMPTIONS = [
     "TableReader files are well-formed numeric rows (two or more columns); malformed rows are outside the statement",
 ]
 REQUIRED = {"stratum:table": 60, "stratum:reader": 60, "stratum:plot": 40, "reader:no_final_newline": 15,
-            "reader:unsorted": 15, "reader:x_scaled": 20, "reader:inside_node_inside": 10, "reader:comments": 15, "table:xy": 15, "table:x_y": 15, "table:potable": 20}
+            "reader:unsorted": 15, "reader:x_scaled": 20, "table:x_scaled": 8, "reader:inside_node_inside": 10, "reader:comments": 15, "table:xy": 15, "table:x_y": 15, "table:potable": 20}
 
 
 @st.composite
@@ -48,7 +48,16 @@ def _table_case(draw, maxpts):
     t = draw(gen.table_form("tabq", draw(st.sampled_from([6, 12, maxpts]))))
     lo, hi = t["x"][0], t["x"][-1]
     qs = draw(st.lists(gen.fl(lo - 1.0, hi + 1.0), min_size=3, max_size=8))
-    return {"kind": "table", "table": t, "queries": qs, "potable": draw(st.booleans())}
+    # the x axis in other units: the same table with every x times a power of ten
+    xexp = draw(st.sampled_from([0, 0, 0, -10, -3, 4]))
+    if xexp:
+        xs = [x * 10.0 ** xexp for x in t["x"]]
+        if all(a < b for a, b in zip(xs, xs[1:])):
+            t["x"] = xs
+            qs = [q * 10.0 ** xexp for q in qs]
+        else:
+            xexp = 0
+    return {"kind": "table", "table": t, "queries": qs, "potable": draw(st.booleans()), "xexp": xexp}
 
 
 @st.composite
@@ -106,6 +115,9 @@ def _check_table(case):
     t = case["table"]
     xs, ys = t["x"], t["y"]
     v, cls = [], ["stratum:table", "table:" + ("x_y" if t["style"] == "x_y" else "xy")]
+    xs_ = 10.0 ** case.get("xexp", 0)
+    if case.get("xexp"):
+        cls.append("table:x_scaled")
     scale = max(1.0, max(abs(y) for y in ys))
     f = tableforms.Cubic_Spline_Table_Form(xs, ys)
     fns = {"class": f}
@@ -133,7 +145,7 @@ def _check_table(case):
                 v.append(("table:datum", "%s: f(%r) = %r, datum %r\n%s" % (name, x, got, y, text or t)))
                 break
         # exactly zero outside
-        for x in (xs[0] - 1e-9, xs[0] - 1.0, math.nextafter(xs[0], -math.inf), xs[-1] + 1e-9, xs[-1] + 3.0,
+        for x in (xs[0] - 1e-9 * xs_, xs[0] - 1.0 * xs_, math.nextafter(xs[0], -math.inf), xs[-1] + 1e-9 * xs_, xs[-1] + 3.0 * xs_,
                   math.nextafter(xs[-1], math.inf)):
             if name != "class" and x <= -1000:
                 continue
@@ -166,7 +178,7 @@ def _check_table(case):
                 v.append(("table:deriv2", "%s: deriv2(%r) = %r, difference of deriv gives %r +- %.2g" % (name, q, g2, d2, e2)))
                 break
     steps = [b - a for a, b in zip(xs, xs[1:])]
-    nt = inner and (max(steps) - min(steps) > 1e-9)
+    nt = inner and (max(steps) - min(steps) > 1e-9 * xs_)
     return {"v": v, "cls": cls, "nt": nt}
 
 
